@@ -34,6 +34,13 @@ CHECKS = {
             "Counters on the instrumented allocators (or the malloc hook for stock allocators) and on element move constructors are judged after every single append."),
     "C19": ("exploration", "5 C19", "runtime monitoring: comparator-call counter read around every lookup / insertion, judged against the stated bounds",
             "Every key rank and gap for n<=64, sampled ranks up to 4096 (20000 thorough), every correct hint, inline SmallSets N=1..8 at every fill."),
+    "C08": ("exploration", "5 C08", "runtime monitoring: complete boundary grid executed on the real containers with snapshot/ledger/canary oracles under ASan/UBSan",
+            "Every fill near the limit x every growing operation x positions x counts (incl. size_type extremes) for small N and 8-bit size types; the expected "
+            "verdict is computed independently in uintmax_t; exhaustive inside that grid."),
+    "C09": ("fault_enumeration", "5 C09", "fault injection: every index of the throwing-capable events (element construction/copy/assignment, allocator calls) of every scenario, judged by ledgers and snapshots",
+            "Each scenario is first run fault-free to count its fault points, then re-run once per fault index; vectors (27 operation forms) and sets (13 forms)."),
+    "C10": ("exploration", "5 C10", "differential runtime monitoring: complete small-scope grid of aliased calls vs std::vector fed with a pre-copied value, plus aliased calls in random histories",
+            "size x position x source index x count x spare-capacity mode x 9 call forms per configuration; exhaustive in that scope."),
 }
 
 NA_REASON = "check not built yet in this session (engine under construction, see DESIGN.md section 5)"
